@@ -32,7 +32,7 @@ Zero == [n |-> 0, d |-> 0, x |-> 0, p |-> 0]
 U(k) == [Zero EXCEPT ![k] = 1]
 
 VARIABLES now,     \* clock
-          st,      \* id -> "new" | "live" | "acked"
+          st,      \* id -> "new" | "live" | "acked" | "gone" (removed by a flush / delete of its queue)
           loc,     \* id -> occurrence vector
           meta,    \* id -> [q, topic, prio, due, exp, dl, ver]
           holder,  \* id -> consumer holding it, or NoC
@@ -47,6 +47,7 @@ vars == <<now, st, loc, meta, holder, origin, deliv, ret, cons, norder, transit,
 
 Meta0 == [q |-> 0, topic |-> 0, prio |-> 0, due |-> NoTime, exp |-> NoTime, dl |-> NoTime, ver |-> 0, dues |-> NoTime]
 
+Sum(v) == v.n + v.d + v.x + v.p
 Live(i) == st[i] = "live"
 Overdue(i) == meta[i].exp # NoTime /\ now > meta[i].exp
 DueOk(i) == meta[i].due = NoTime \/ meta[i].due <= now
@@ -209,9 +210,34 @@ RequeueInsert(i, k) ==
     /\ norder' = IF k = "n" /\ pend[i].due = NoTime THEN Append(Rm(norder, i), i) ELSE norder
     /\ UNCHANGED <<now, st, origin, deliv, cons, pend>>
 
+(* queue_flush / queue_delete of queue q: every waiting, delayed and dead message of q is removed; a   *)
+(* message of q that is in flight at that moment goes with the queue or stays with its holder (the     *)
+(* brokers differ: the in-memory and Redis brokers keep the in-flight data with the queue, RabbitMQ     *)
+(* keeps unacknowledged deliveries); messages of every other queue are untouched.  Drop is the          *)
+(* per-message step (what a trace shows), Flush the whole operation.                                     *)
+Droppable(i, q) == Live(i) /\ meta[i].q = q /\ ~transit[i] /\ Sum(loc[i]) = 1
+Drop(i, q) ==
+    /\ Droppable(i, q)
+    /\ st' = [st EXCEPT ![i] = "gone"] /\ loc' = [loc EXCEPT ![i] = Zero]
+    /\ holder' = [holder EXCEPT ![i] = NoC] /\ norder' = Rm(norder, i)
+    /\ UNCHANGED <<now, meta, origin, deliv, ret, cons, transit, pend>>
+Waiting(q) == {i \in Ids : Droppable(i, q) /\ loc[i].p = 0}
+InFlight(q) == {i \in Ids : Droppable(i, q) /\ loc[i].p = 1}
+Flush(q, H) ==
+    /\ H \subseteq InFlight(q)
+    /\ LET D == Waiting(q) \cup H IN
+       /\ D # {}
+       /\ st' = [i \in Ids |-> IF i \in D THEN "gone" ELSE st[i]]
+       /\ loc' = [i \in Ids |-> IF i \in D THEN Zero ELSE loc[i]]
+       /\ holder' = [i \in Ids |-> IF i \in D THEN NoC ELSE holder[i]]
+       /\ norder' = SelectSeq(norder, LAMBDA y : y \notin D)
+    /\ UNCHANGED <<now, meta, origin, deliv, ret, cons, transit, pend>>
+
 -----------------------------------------------------------------------------
 (* Model-checking instance: small sets of metas *)
-MetaSet == [q : {1}, topic : Topics, prio : {1}, due : Dues, exp : Exps, dl : {NoTime}, ver : {1}, dues : {NoTime}]
+MCQueues == {1}     \* (overridden by the configurations that explore flush with two queues)
+FlushQs == {}       \* (idem: the queues on which Flush is explored)
+MetaSet == [q : MCQueues, topic : Topics, prio : {1}, due : Dues, exp : Exps, dl : {NoTime}, ver : {1}, dues : {NoTime}]
 ReMetaSet(i) == {[meta[i] EXCEPT !.due = d, !.exp = e, !.ver = 2] : d \in Dues, e \in Exps}
 
 Init == /\ now = 1
@@ -233,12 +259,12 @@ Next == \/ \E t \in (now + 1)..MaxTime : Tick(t)
               \/ \E m \in ReMetaSet(i), k \in {"n", "d"} : deliv[i] /\ ~transit[i] /\ Requeue(c, i, m, k)
               \/ \E m \in ReMetaSet(i) : deliv[i] /\ RequeueRemove(c, i, m)
         \/ \E i \in Ids, k \in {"n", "d"} : RequeueInsert(i, k)
+        \/ \E q \in FlushQs : \E H \in SUBSET InFlight(q) : Flush(q, H)
 Spec == Init /\ [][Next]_vars
 
 -----------------------------------------------------------------------------
 (* Properties *)
-Sum(v) == v.n + v.d + v.x + v.p
-TypeOK == /\ \A i \in Ids : st[i] \in {"new", "live", "acked"} /\ holder[i] \in Consumers \cup {NoC}
+TypeOK == /\ \A i \in Ids : st[i] \in {"new", "live", "acked", "gone"} /\ holder[i] \in Consumers \cup {NoC}
 (* C01: every message ever enqueued is in exactly one place (or finally acknowledged) *)
 Conservation ==
     \A i \in Ids :
@@ -258,4 +284,9 @@ OnlyViaDelayed == [][\A c \in Consumers, i \in Ids :
                        (TakenNow(c, i) /\ loc[i] = U("d") /\ ~DueOk(i)) => cons[c].cat = "d"]_vars
 (* C01 action properties *)
 AckRemoves == [][\A i \in Ids : (st[i] = "live" /\ st'[i] = "acked") => (loc[i] = U("p") /\ loc'[i] = Zero)]_vars
+(* a message disappears without being acknowledged only by a flush of its own queue, which takes every waiting message of that queue *)
+Vanishes(i) == st[i] = "live" /\ st'[i] = "gone"
+FlushLocal == [][\A i, j \in Ids : (Vanishes(i) /\ Vanishes(j)) => meta[i].q = meta[j].q]_vars
+FlushComplete == [][\A i, j \in Ids : (Vanishes(i) /\ Live(j) /\ meta[j].q = meta[i].q /\ loc[j].p = 0 /\ ~transit[j]) => Vanishes(j)]_vars
+GoneIsFinal == [][\A i \in Ids : st[i] \in {"acked", "gone"} => st'[i] = st[i]]_vars
 =============================================================================
